@@ -105,6 +105,8 @@ type FT struct {
 	exitEnv   *CEnv
 	invHit    map[*Clause]bool
 	allTagsC  []string
+	namedLits map[string]string
+	refSources map[string]bool // region|selector path of references that contracts dereference
 	nq        int
 }
 
@@ -163,6 +165,10 @@ func (ft *FT) pos(p token.Pos) string {
 func (ft *FT) strLit(s string) *T {
 	if s == "" {
 		return L("str.empty")
+	}
+	if n, ok := ft.e.prelude.StrLits[s]; ok {
+		ft.namedLits[s] = n
+		return L(n)
 	}
 	if n, ok := ft.strLits[s]; ok {
 		return L(n)
@@ -260,6 +266,7 @@ type Body struct {
 	depth    int
 	curBlock *ssa.BasicBlock
 	parent   *Body
+	curState State
 	tupleRefs []*T // Ref-sorted components of tuple values
 }
 
@@ -413,6 +420,8 @@ func (ft *FT) loadPath(root *T, rootSort string, path []PStep) *T {
 				panic(fmt.Sprintf("no field %s in sort %s", st.Field, curSort))
 			}
 			cur = A(f.Sel, cur)
+		} else if curSort == "Bytes" {
+			cur = A("bat", cur, st.Index)
 		} else {
 			cur = Sel(cur, st.Index)
 		}
@@ -431,6 +440,9 @@ func (ft *FT) storePath(root *T, rootSort string, path []PStep, nv *T) *T {
 		f := ft.e.sorts.Field(rootSort, st.Field)
 		inner := ft.storePath(A(f.Sel, root), st.Sort, path[1:], nv)
 		return ft.e.sorts.UpdField(rootSort, root, st.Field, inner)
+	}
+	if rootSort == "Bytes" {
+		return A("bset", root, st.Index, nv)
 	}
 	inner := ft.storePath(Sel(root, st.Index), st.Sort, path[1:], nv)
 	return Sto(root, st.Index, inner)
@@ -584,7 +596,9 @@ func (ft *FT) constVal(c *ssa.Const) *Val {
 			}
 		}
 		n := "float.c." + symSafe(c.Value.ExactString())
-		ft.declare(n, "Float")
+		if _, inPrelude := ft.e.prelude.Fns[n]; !inPrelude {
+			ft.declare(n, "Float")
+		}
 		return &Val{T: L(n), Type: t}
 	}
 	return &Val{T: ft.fresh("const", ft.sortOf(t)), Type: t}
